@@ -522,6 +522,18 @@ fn pipeline(ctx: &ChildCtx, sh: &mut Shard, idx: u64, r: &mut CRng) {
             let applied: bool = $body;
             if applied {
                 rej(sh, $what, $sub, &$c, &ip_info, &ars_infos, g, &noe);
+                // The account-ownership signature covers every value and proof, so an altered
+                // credential is rejected by it even where the check that is responsible for the
+                // altered field has gone missing. The holder can always sign again: the altered
+                // credential must still be rejected when it carries fresh, valid signatures.
+                // (not for alterations of the signatures themselves: signing again would undo them)
+                let what_s: &str = $what;
+                let unsigned = UnsignedCredentialDeploymentInfo { values: $c.values.clone(), proofs: $c.proofs.id_proofs.clone() };
+                if what_s.contains("proof_acc_sk") {
+                } else if let Ok(sigs) = catch(|| cred_data.sign(&noe, &unsigned)) {
+                    $c.proofs.proof_acc_sk = AccountOwnershipProof { sigs };
+                    rej(sh, &format!("{}.resigned", $what), &format!("{} (account signatures renewed)", $sub), &$c, &ip_info, &ars_infos, g, &noe);
+                }
             }
         }};
     }
@@ -653,6 +665,24 @@ fn pipeline(ctx: &ChildCtx, sh: &mut Shard, idx: u64, r: &mut CRng) {
     for i in 0..t as usize {
         with_cdi!("proofs.commitments.sharing_coeff", &format!("proofs.commitments.cmm_id_cred_sec_sharing_coeff[{}]", i), |c| {
             bump(&mut c.proofs.id_proofs.commitments.cmm_id_cred_sec_sharing_coeff[i].0);
+            true
+        });
+    }
+    // more (or fewer) coefficient commitments than the threshold: the neutral element leaves the
+    // committed polynomial's values unchanged, a copy of the last one does not
+    for (sub, which) in [("append(neutral)", 0), ("append(copy of last)", 1), ("remove(last)", 2)] {
+        with_cdi!("proofs.commitments.sharing_coeff.count", &format!("proofs.commitments.cmm_id_cred_sec_sharing_coeff.{}", sub), |c| {
+            let v = &mut c.proofs.id_proofs.commitments.cmm_id_cred_sec_sharing_coeff;
+            match which {
+                0 => v.push(concordium_base::pedersen_commitment::Commitment(<ArCurve as Curve>::zero_point())),
+                1 => {
+                    let l = v.last().unwrap().clone();
+                    v.push(l)
+                }
+                _ => {
+                    v.pop();
+                }
+            }
             true
         });
     }
